@@ -212,28 +212,32 @@ def inRI (c : Nat) : Bool := 0x1F1E6 ≤ c && c ≤ 0x1F1FF
 /-- src: unicode.rs::is_variation_selector -/
 def isVS (c : Nat) : Bool := (0xFE00 ≤ c && c ≤ 0xFE0F) || (0xE0100 ≤ c && c ≤ 0xE01EF)
 
-/-- src: buffer.rs::hb_glyph_info_t::init_unicode_props (on the code point in `gid`) -/
-def initProps (u : Ucd) (c : Nat) (s : Scratch) : UProps × Scratch :=
-  let gc := u.gc c
-  let p : UProps := { gc := gc }
-  if c < 0x80 then (p, s) else
+/-- the `match u as u32` inside the default-ignorable branch of `init_unicode_props` -/
+def diExtra (c : Nat) (p : UProps) : UProps :=
+  if c == 0x200C then { p with hi := p.hi ||| 2 }                              -- CF_ZWNJ
+  else if c == 0x200D then { p with hi := p.hi ||| 1 }                         -- CF_ZWJ
+  else if (0x180B ≤ c && c ≤ 0x180D) || c == 0x180F then { p with hid := true }   -- Mongolian FVS
+  else if 0xE0020 ≤ c && c ≤ 0xE007F then { p with hid := true }               -- TAG characters
+  else if c == 0x034F then { p with hid := true }                              -- CGJ
+  else p
+
+/-- src: buffer.rs::hb_glyph_info_t::init_unicode_props — the props it computes for code point `c` -/
+def initP (u : Ucd) (c : Nat) : UProps :=
+  let p : UProps := { gc := u.gc c }
+  if c < 0x80 then p else
+  let p := if u.isDI c then diExtra c { p with ign := true } else p
+  if isMarkGc (u.gc c) then { p with cont := true, hi := p.hi ||| u.mcc c } else p
+
+/-- src: buffer.rs::hb_glyph_info_t::init_unicode_props — the scratch flags it raises -/
+def initS (u : Ucd) (c : Nat) (s : Scratch) : Scratch :=
+  if c < 0x80 then s else
   let s := { s with nonAscii := true }
-  let (p, s) :=
-    if u.isDI c then
-      let p := { p with ign := true }
-      let s := { s with hasDI := true }
-      if c == 0x200C then ({ p with hi := p.hi ||| 2 }, s)
-      else if c == 0x200D then ({ p with hi := p.hi ||| 1 }, s)
-      else if (0x180B ≤ c && c ≤ 0x180D) || c == 0x180F then ({ p with hid := true }, s)
-      else if 0xE0020 ≤ c && c ≤ 0xE007F then ({ p with hid := true }, s)
-      else if c == 0x034F then ({ p with hid := true }, { s with hasCGJ := true })
-      else (p, s)
-    else (p, s)
-  if isMarkGc gc then ({ p with cont := true, hi := p.hi ||| u.mcc c }, s) else (p, s)
+  if u.isDI c then { s with hasDI := true, hasCGJ := s.hasCGJ || c == 0x034F } else s
+
+def initProps (u : Ucd) (c : Nat) (s : Scratch) : UProps × Scratch := (initP u c, initS u c s)
 
 def G.init (u : Ucd) (g : G) (s : Scratch) : G × Scratch :=
-  let r := initProps u g.gid s
-  ({ g with props := r.1 }, r.2)
+  ({ g with props := initP u g.gid }, initS u g.gid s)
 
 /-- the categories `set_unicode_props` passes over without further tests -/
 def skipGc (gc : Nat) : Bool :=
@@ -345,34 +349,44 @@ def formClusters (c : Cfg) (l : List G) (s : Scratch) : List G :=
 def reverseGraphemes (level : Nat) (l : List G) : List G :=
   (graphemes (level == 1) level l.length l).reverse.flatten
 
+/-- src: ot_shape.rs::ensure_native_direction — `hor`: the script's horizontal direction, reset to LTR
+    for a natively-RTL script when the run has digits or regional indicators and no letters
+    (the scan stops at the first letter, so `found_letter` = "there is a letter"). -/
+def effectiveHor (c : Cfg) (l : List G) : Option Dir :=
+  if c.nat == some .rtl && c.dir == .ltr then
+    let hasLetter := l.any fun g => isLetterGc g.props.gc
+    let hasNumber := l.any fun g => g.props.gc == GC_DECIMAL_NUMBER
+    let hasRI := l.any fun g => g.props.gc != GC_DECIMAL_NUMBER && !isLetterGc g.props.gc && inRI g.gid
+    if (hasNumber || hasRI) && !hasLetter then some .ltr else c.nat
+  else c.nat
+
+/-- src: ot_shape.rs::ensure_native_direction — the final test -/
+def needsReverse (c : Cfg) (l : List G) : Bool :=
+  (c.dir.isHorizontal && (effectiveHor c l).isSome && some c.dir != effectiveHor c l)
+    || (c.dir.isVertical && c.dir != .ttb)
+
 /-- src: ot_shape.rs::ensure_native_direction.  Returns the buffer and `buffer.direction`. -/
 def ensureNativeDirection (c : Cfg) (l : List G) : List G × Dir :=
-  let dir := c.dir
-  let hor : Option Dir :=
-    if c.nat == some .rtl && dir == .ltr then
-      let hasLetter := l.any fun g => isLetterGc g.props.gc
-      let hasNumber := l.any fun g => g.props.gc == GC_DECIMAL_NUMBER
-      let hasRI := l.any fun g => g.props.gc != GC_DECIMAL_NUMBER && !isLetterGc g.props.gc && inRI g.gid
-      if (hasNumber || hasRI) && !hasLetter then some .ltr else c.nat
-    else c.nat
-  if (dir.isHorizontal && hor.isSome && some dir != hor) || (dir.isVertical && dir != .ttb) then
-    (reverseGraphemes c.level l, dir.reverse)
-  else (l, dir)
+  if needsReverse c l then (reverseGraphemes c.level l, c.dir.reverse) else (l, c.dir)
 
 /-! ## substitution side -/
 
+/-- one slot of the mirroring loop of `rotate_chars` -/
+def mirror1 (u : Ucd) (f : Font) (g : G) : G :=
+  match u.mirror g.gid with
+  | some m => if (nominal f m).isSome then { g with gid := m } else g
+  | none => g
+
+/-- one slot of the vertical-forms loop of `rotate_chars` -/
+def vert1 (u : Ucd) (f : Font) (g : G) : G :=
+  match u.vert g.gid with
+  | some v => if (nominal f v).isSome then { g with gid := v } else g
+  | none => g
+
 /-- src: ot_shape.rs::rotate_chars (`has_vert` is false: there is no GSUB) -/
 def rotateChars (u : Ucd) (f : Font) (c : Cfg) (l : List G) : List G :=
-  let l := if c.dir.isBackward then
-      l.map fun g => match u.mirror g.gid with
-        | some m => if (nominal f m).isSome then { g with gid := m } else g
-        | none => g
-    else l
-  if c.dir.isVertical then
-    l.map fun g => match u.vert g.gid with
-      | some v => if (nominal f v).isSome then { g with gid := v } else g
-      | none => g
-  else l
+  let l := if c.dir.isBackward then l.map (mirror1 u f) else l
+  if c.dir.isVertical then l.map (vert1 u f) else l
 
 /-- src: ot_shape_normalize.rs::set_glyph -/
 def setGlyph (f : Font) (g : G) : G :=
@@ -461,47 +475,57 @@ def inScope (u : Ucd) (l : List G) : Bool :=
   l.all fun g => !u.norm g.gid && u.mcc g.gid == 0
 
 /-- src: ot_shape.rs::map_glyphs_fast; ot_layout.rs::_hb_ot_layout_set_glyph_props (no GDEF: 0);
-    ot_shape.rs::hb_synthesize_glyph_classes (BASE_GLYPH 2, MARK 8) -/
-def mapGlyphsAndClasses (l : List G) : List G :=
-  l.map fun g =>
-    let g := { g with gid := g.var1, var1 := 0 }
-    let cls := if g.props.gc != GC_NON_SPACING_MARK || g.isDI then 2 else 8
-    { g with var1 := cls }
+    ot_shape.rs::hb_synthesize_glyph_classes (BASE_GLYPH 2, MARK 8) — one slot -/
+def mapGlyph1 (g : G) : G :=
+  let g := { g with gid := g.var1, var1 := 0 }
+  let cls := if g.props.gc != GC_NON_SPACING_MARK || g.isDI then 2 else 8
+  { g with var1 := cls }
+
+def mapGlyphsAndClasses (l : List G) : List G := l.map mapGlyph1
 
 /-! ## positioning -/
 
-/-- src: ot_shape.rs::position_default (after `clear_positions`) -/
-def positionDefault (f : Font) (dir : Dir) (l : List G) : List G :=
-  l.map fun g =>
-    if dir.isHorizontal then { g with xa := hAdvance f g.gid, ya := 0, xo := 0, yo := 0 }
-    else { g with xa := 0, ya := vAdvance f g.gid, xo := 0 - hOrigin f g.gid, yo := 0 - vOrigin f g.gid }
+/-- src: ot_shape.rs::position_default (after `clear_positions`) — one slot -/
+def posDefault1 (f : Font) (dir : Dir) (g : G) : G :=
+  if dir.isHorizontal then { g with xa := hAdvance f g.gid, ya := 0, xo := 0, yo := 0 }
+  else { g with xa := 0, ya := vAdvance f g.gid, xo := 0 - hOrigin f g.gid, yo := 0 - vOrigin f g.gid }
+
+def positionDefault (f : Font) (dir : Dir) (l : List G) : List G := l.map (posDefault1 f dir)
 
 /-- the first digit '0'..'9' the font maps (SPACE_FIGURE) -/
 def firstDigitGlyph (f : Font) : Option Nat :=
   (List.range 10).findSome? fun i => nominal f (0x30 + i)
 
-/-- src: ot_shape_fallback.rs::_hb_ot_shape_fallback_spaces -/
-def fallbackSpaces (f : Font) (dir : Dir) (l : List G) : List G :=
-  l.map fun g =>
-    if g.props.gc == GC_SPACE_SEPARATOR then   -- (never ligated: there is no GSUB)
-      let t := g.props.hi
-      let setAdv (len : Int) : G := if dir.isHorizontal then { g with xa := len } else { g with ya := -len }
-      if t == SPACE_EM || t == SPACE_EM_2 || t == SPACE_EM_3 || t == SPACE_EM_4 || t == SPACE_EM_5
-          || t == SPACE_EM_6 || t == SPACE_EM_16 then
-        setAdv ((((f.upem + t / 2) / t : Nat) : Int))
-      else if t == SPACE_4_EM_18 then setAdv (((f.upem * 4 / 18 : Nat) : Int))
-      else if t == SPACE_FIGURE then
-        match firstDigitGlyph f with
-        | some d => if dir.isHorizontal then { g with xa := hAdvance f d } else { g with ya := vAdvance f d }
-        | none => g
-      else if t == SPACE_PUNCTUATION then
-        match (nominal f 0x2E).orElse fun _ => nominal f 0x2C with
-        | some d => if dir.isHorizontal then { g with xa := hAdvance f d } else { g with ya := vAdvance f d }
-        | none => g
-      else if t == SPACE_NARROW then
-        if dir.isHorizontal then { g with xa := g.xa.tdiv 2 } else { g with ya := g.ya.tdiv 2 }
-      else g
+/-- write an advance on the axis of the direction -/
+def setAdvance (dir : Dir) (g : G) (len : Int) : G :=
+  if dir.isHorizontal then { g with xa := len } else { g with ya := -len }
+
+/-- advance of glyph `d` on the axis of the direction -/
+def copyAdvance (f : Font) (dir : Dir) (g : G) (d : Nat) : G :=
+  if dir.isHorizontal then { g with xa := hAdvance f d } else { g with ya := vAdvance f d }
+
+/-- src: ot_shape_fallback.rs::_hb_ot_shape_fallback_spaces — one slot -/
+def fallbackSpace1 (f : Font) (dir : Dir) (g : G) : G :=
+  if g.props.gc == GC_SPACE_SEPARATOR then   -- (never ligated: there is no GSUB)
+    let t := g.props.hi
+    if t == SPACE_EM || t == SPACE_EM_2 || t == SPACE_EM_3 || t == SPACE_EM_4 || t == SPACE_EM_5
+        || t == SPACE_EM_6 || t == SPACE_EM_16 then
+      setAdvance dir g ((((f.upem + t / 2) / t : Nat) : Int))
+    else if t == SPACE_4_EM_18 then setAdvance dir g (((f.upem * 4 / 18 : Nat) : Int))
+    else if t == SPACE_FIGURE then
+      match firstDigitGlyph f with
+      | some d => copyAdvance f dir g d
+      | none => g
+    else if t == SPACE_PUNCTUATION then
+      match (nominal f 0x2E).orElse fun _ => nominal f 0x2C with
+      | some d => copyAdvance f dir g d
+      | none => g
+    else if t == SPACE_NARROW then
+      if dir.isHorizontal then { g with xa := g.xa.tdiv 2 } else { g with ya := g.ya.tdiv 2 }
     else g
+  else g
+
+def fallbackSpaces (f : Font) (dir : Dir) (l : List G) : List G := l.map (fallbackSpace1 f dir)
 
 /-- the zeroing both mark passes apply to one slot -/
 def zeroMark (adjust : Bool) (g : G) : G :=
@@ -509,14 +533,15 @@ def zeroMark (adjust : Bool) (g : G) : G :=
   else { g with xa := 0, ya := 0 }
 
 /-- src: ot_shape.rs::zero_mark_widths_by_gdef (glyph class MARK = 8) -/
-def zeroMarkWidthsByGdef (adjust : Bool) (l : List G) : List G :=
-  l.map fun g => if g.var1 / 8 % 2 == 1 then zeroMark adjust g else g
+def zeroGdef1 (adjust : Bool) (g : G) : G := if g.var1 / 8 % 2 == 1 then zeroMark adjust g else g
+
+def zeroMarkWidthsByGdef (adjust : Bool) (l : List G) : List G := l.map (zeroGdef1 adjust)
+
+def zeroDI1 (g : G) : G := if g.isDI then { g with xa := 0, ya := 0, xo := 0, yo := 0 } else g
 
 /-- src: ot_shape.rs::zero_width_default_ignorables -/
 def zeroWidthDI (c : Cfg) (s : Scratch) (l : List G) : List G :=
-  if s.hasDI && !hasFlag c.flags BF_PRESERVE && !hasFlag c.flags BF_REMOVE then
-    l.map fun g => if g.isDI then { g with xa := 0, ya := 0, xo := 0, yo := 0 } else g
-  else l
+  if s.hasDI && !hasFlag c.flags BF_PRESERVE && !hasFlag c.flags BF_REMOVE then l.map zeroDI1 else l
 
 /-- src: ot_shape_fallback.rs::position_marks → position_cluster → position_around_base →
     zero_mark_advances, for a font whose `glyph_extents` fails (no outlines): the clusters start at
@@ -531,6 +556,22 @@ def positionMarksFb (adjust : Bool) : Bool → List G → List G
         :: positionMarksFb adjust seen tl
     else g :: positionMarksFb adjust true tl
 
+/-- `i + 1 < len && cluster == info[i + 1].cluster` -/
+def sameClusterNext (g : G) : List G → Bool
+  | n :: _ => n.cluster == g.cluster
+  | [] => false
+
+/-- "Merge cluster backward": the trailing run of `out` whose cluster is `old` takes cluster `c` -/
+def mergeBackward (c old : Nat) (out : List G) : List G :=
+  let k := (out.reverse.takeWhile fun x => x.cluster == old).length
+  out.take (out.length - k) ++ (out.drop (out.length - k)).map (setCluster c)
+
+/-- "Merge cluster forward" (`merge_clusters(i, i + 2)` while nothing has been kept yet), then the
+    deleted slot `info[i]` is dropped: what remains of `info[i+1..len]` -/
+def mergeForwardDrop (level : Nat) (g : G) : List G → List G
+  | n :: tl' => (mergeClusters level [g, n] tl').drop 1
+  | [] => []
+
 /-- src: buffer.rs::delete_glyphs_inplace(_hb_glyph_info_is_default_ignorable).
     `out` = `info[0..j]` (kept so far), the list = `info[i..len]`. -/
 def deleteDI (level : Nat) : Nat → List G → List G → List G
@@ -538,32 +579,21 @@ def deleteDI (level : Nat) : Nat → List G → List G → List G
   | _, out, [] => out
   | fuel + 1, out, g :: tl =>
     if g.isDI then
-      let sameNext := match tl with
-        | n :: _ => n.cluster == g.cluster
-        | [] => false
-      if sameNext then deleteDI level fuel out tl                -- cluster survives
+      if sameClusterNext g tl then deleteDI level fuel out tl                -- cluster survives
       else
         match out.getLast? with
         | some last =>
-          -- merge cluster backward
-          if g.cluster < last.cluster then
-            let old := last.cluster
-            let k := (out.reverse.takeWhile fun x => x.cluster == old).length
-            let out' := out.take (out.length - k) ++ (out.drop (out.length - k)).map (setCluster g.cluster)
-            deleteDI level fuel out' tl
-          else deleteDI level fuel out tl
-        | none =>
-          -- j == 0: merge cluster forward, `merge_clusters(i, i + 2)`
-          match tl with
-          | n :: tl' => deleteDI level fuel out ((mergeClusters level [g, n] tl').drop 1)
-          | [] => deleteDI level fuel out tl
+          deleteDI level fuel (if g.cluster < last.cluster then mergeBackward g.cluster last.cluster out else out) tl
+        | none => deleteDI level fuel out (mergeForwardDrop level g tl)      -- j == 0
     else deleteDI level fuel (out ++ [g]) tl
+
+def hide1 (sp : Nat) (g : G) : G := if g.isDI then { g with gid := sp } else g
 
 /-- src: ot_shape.rs::hide_default_ignorables (`buffer.invisible` is None) -/
 def hideDI (f : Font) (c : Cfg) (s : Scratch) (l : List G) : List G :=
   if s.hasDI && !hasFlag c.flags BF_PRESERVE then
     match (if !hasFlag c.flags BF_REMOVE then nominal f 0x20 else none) with
-    | some sp => l.map fun g => if g.isDI then { g with gid := sp } else g
+    | some sp => l.map (hide1 sp)
     | none => deleteDI c.level l.length [] l
   else l
 
@@ -573,28 +603,39 @@ def hideDI (f : Font) (c : Cfg) (s : Scratch) (l : List G) : List G :=
 def initial (text : List (Nat × Nat)) : List G :=
   text.map fun t => { cp0 := t.1, gid := t.1, cluster := t.2 }
 
-/-- src: ot_shape.rs::shape_internal (with substitute_pre / position / substitute_post inlined) for a
-    plan compiled on a font without layout tables and the default shaper:
-    zero_marks (BY_GDEF_LATE), fallback_glyph_classes, fallback_mark_positioning,
+/-! src: ot_shape.rs::shape_internal for a plan compiled on a font without layout tables and the
+    default shaper: zero_marks (BY_GDEF_LATE), fallback_glyph_classes, fallback_mark_positioning,
     adjust_mark_positioning_when_zeroing are on; GSUB / GPOS / kern / kerx / morx / trak are absent. -/
-def shapeCore (u : Ucd) (f : Font) (c : Cfg) (l : List G) : List G :=
+
+/-- set_unicode_props; insert_dotted_circle; form_clusters; ensure_native_direction.
+    Returns the buffer, the scratch flags and `buffer.direction`. -/
+def prepare (u : Ucd) (f : Font) (c : Cfg) (l : List G) : List G × Scratch × Dir :=
   let r := setUnicodeProps u none false l {}
   let r := insertDottedCircle u f c r.1 r.2
-  let s := r.2
-  let l := formClusters c r.1 s
-  let (l, bdir) := ensureNativeDirection c l
-  let l := rotateChars u f c l
-  let r := normalizeRound1 u f l.length l s
-  let s := r.2
-  let l := mapGlyphsAndClasses r.1
+  let e := ensureNativeDirection c (formClusters c r.1 r.2)
+  (e.1, r.2, e.2)
+
+/-- substitute_pre: rotate_chars; normalize; map_glyphs_fast; glyph classes (there is no GSUB) -/
+def substitute (u : Ucd) (f : Font) (c : Cfg) (l : List G) (s : Scratch) : List G × Scratch :=
+  let r := normalizeRound1 u f l.length (rotateChars u f c l) s
+  (mapGlyphsAndClasses r.1, r.2)
+
+/-- position_default; (fallback spaces); position_complex — without the final reversal -/
+def position (f : Font) (c : Cfg) (bdir : Dir) (s : Scratch) (l : List G) : List G :=
   let l := positionDefault f bdir l
   let l := if s.hasSpaceFb then fallbackSpaces f bdir l else l
-  let adjust := bdir.isForward
-  let l := zeroMarkWidthsByGdef adjust l
+  let l := zeroMarkWidthsByGdef bdir.isForward l
   let l := zeroWidthDI c s l
-  let l := positionMarksFb adjust false l
-  let l := if bdir.isBackward then l.reverse else l
-  hideDI f c s l
+  positionMarksFb bdir.isForward false l
+
+/-- the reversal at the end of `position`; substitute_post (hide_default_ignorables) -/
+def finish (f : Font) (c : Cfg) (bdir : Dir) (s : Scratch) (l : List G) : List G :=
+  hideDI f c s (if bdir.isBackward then l.reverse else l)
+
+def shapeCore (u : Ucd) (f : Font) (c : Cfg) (l : List G) : List G :=
+  let p := prepare u f c l
+  let q := substitute u f c p.1 p.2.1
+  finish f c p.2.2 q.2 (position f c p.2.2 q.2 q.1)
 
 /-- src: shape.rs::shape / shape_with_plan (direction and script already set by the caller) -/
 def shape (u : Ucd) (f : Font) (c : Cfg) (text : List (Nat × Nat)) : Except Err (List G) :=
